@@ -8,8 +8,16 @@ class Context():
 
     def __init__(self):
         self._context = {}
-        # A lookup from declarations to namespaces
+        # A lookup from declarations to namespaces. Declarations are
+        # identified by object identity: some of them (e.g., type parameters)
+        # are completed after they have been added, which changes their hash.
         self._namespaces = {}
+
+    def __setstate__(self, state):
+        # Object identities change when a context is copied or unpickled.
+        self.__dict__.update(state)
+        self._namespaces = {id(decl): (decl, namespace)
+                            for decl, namespace in self._namespaces.values()}
 
     def _add_entity(self, namespace, entity, name, value):
         if namespace in self._context:
@@ -24,15 +32,15 @@ class Context():
                 'decls': OrderedDict()  # Here we keep the declaration order
             }
             self._context[namespace][entity][name] = value
-        self._namespaces[value] = namespace
+        self._namespaces[id(value)] = (value, namespace)
 
     def _remove_entity(self, namespace, entity, name):
         if namespace not in self._context:
             return
         if name in self._context[namespace][entity]:
             decl = self._context[namespace][entity][name]
-            if decl in self._namespaces:
-                del self._namespaces[decl]
+            if id(decl) in self._namespaces:
+                del self._namespaces[id(decl)]
             del self._context[namespace][entity][name]
 
     def add_type(self, namespace, type_name, t):
@@ -171,7 +179,8 @@ class Context():
         return type(self.get_decl(namespace, name))
 
     def get_namespace(self, decl):
-        return self._namespaces.get(decl, None)
+        entry = self._namespaces.get(id(decl), None)
+        return entry[1] if entry is not None else None
 
     def get_parent(self, namespace):
         if len(namespace) < 2:
